@@ -403,9 +403,9 @@ def run_C13(res):
     # node-limit sweep: the budget expires at every point of the tree in turn (inside the move loop, a null-move subtree, quiescence,
     # between iterations) — the abort paths are where a search forgets to restore what it borrowed
     # middlegame roots (null-move pruning is switched off in endgames)
-    sweep_roots = [r for r in roots if bin(Pos(r[0]).c0 | Pos(r[0]).c1).count("1") >= 14][: (8 if res.tier == "quick" else 60)]
+    sweep_roots = [r for r in roots if bin(Pos(r[0]).c0 | Pos(r[0]).c1).count("1") >= 14][: (8 if res.tier == "quick" else 24)]
     for p, h in sweep_roots:
-        for n in list(range(1, 90)) + list(range(90, 800, 9 if res.tier == "quick" else 3)):
+        for n in list(range(1, 90)) + list(range(90, 800, 9 if res.tier == "quick" else 5)):
             reqs.append(f"root {p} {hist_str(h)} 1 nodes {n}")
             det.append(True)
     res.count("node_limit_sweep_requests", sum(1 for r in reqs if " 1 nodes " in r))
@@ -569,6 +569,19 @@ def run_C14(res):
         elif best - budget > 0.25:
             res.fail("search on a nearly expired clock overran the mover's whole clock by more than 250 ms", fen=f, go=args, seconds=round(best, 3))
     res.count("process_level_low_clock_runs", nlow)
+    # the deepest recursion the depth cap allows, through the real process (stack depth is outside every model): a blocked pawn ending is
+    # searched to depth 120 in about a second; all 120 iterations must be reported and a move played
+    for b, dmax in (("release", 120), ("checked", 70)):
+        sc = ["isready", "position fen 8/8/4k3/p1p1p1p1/P1P1P1P1/8/4K3/8 w - - 0 1", f"go depth {dmax}", "quit"]
+        rc, out, err, to, secs = vlib.run_engine(sc, b, timeout=120)
+        res.evaluations += 1
+        res.count("process_level_deep_recursion_runs")
+        depths = [int(x) for x in re.findall(r"^info depth (\d+) ", out, re.M)]
+        if to or rc != 0 or "bestmove" not in out:
+            res.fail("a deep depth-limited search did not finish with a move (crash, stack overflow or hang)", script=sc, build=b, exit_status=rc,
+                     last_depth_reported=depths[-1] if depths else None, stderr=err[-200:])
+        elif depths != list(range(1, dmax + 1)):
+            res.fail("depth limit: reported iterations are not exactly 1..D", script=sc, build=b, limit=dmax, observed=depths[-5:])
     res.coverage["max_overshoot_s_incl_process_startup"] = round(worst, 3)
     res.notes.append("the wall-clock clause is exploration: the model has a stop oracle, not a clock")
 
